@@ -237,6 +237,22 @@ def run(ctx):
                 exercise(ctx, im, text, None, 6, "identifiers-" + pool_name, nontrivial=pool_name in ("kwprefix", "shape"))
                 ctx.seen("identifier_positions", pos)
     ctx.sample(dict(layer="identifiers", text=text))
+    # token-level mutants of the seed programs that are *still* sentences of the grammar (duplicated `not`, swapped operands,
+    # re-cased keywords that became identifiers, inserted parentheses ...): unusual but grammatical, so they must compile
+    from pyabv.gen.mutate import single_mutations
+    from pyabv.gen.trivia import token_slices
+
+    for sidx, seed_text in enumerate(corpus.SEEDS):
+        for kind, detail, text in single_mutations(token_slices(seed_text)):
+            if kind in ("illegal-char", "illegal-char-glued", "prefix-junk", "suffix-junk", "truncate", "break-weight", "number-format"):
+                continue
+            idx += 1
+            if not ctx.mine(idx) or (ctx.quick() and idx % 3):
+                continue
+            st = ref_parse(text)
+            if st[0] == "ok":
+                exercise(ctx, im, text, None, 4, "grammatical-mutants", nontrivial=True, prog=st[1])
+                ctx.seen("grammatical_mutation_kinds", kind)
     # size shapes
     for name, text in size_shapes(rnd):
         idx += 1
